@@ -1,5 +1,6 @@
 import RrModel.Spec.C19
 import RrModel.Spec.Tables
+import RrModel.Secrets
 import RrProofs.Lemmas.Strings
 /-
   C19 — Configurations are accepted or rejected whole; reload keeps the last good one.
@@ -543,12 +544,6 @@ def StatementNoPanic : Prop :=
   ∀ (routingSecrets : Option (List Bytes)) (reparse : Query → Option Query) (req : Req),
     (requestPath routingSecrets reparse (cs.map (·.rule)) req).isOk = true
 
-/-- `Host: [abc`: `DropPort` slices `ipport[1:-1]`, whatever the rules are (C05-b) -/
-theorem fails_witness_host (routingSecrets : Option (List Bytes)) (reparse : Query → Option Query)
-    (rs : List Rule) :
-    (requestPath routingSecrets reparse rs { host := b!"[abc", uri := b!"/a/x", method := b!"GET" }).isOk = false := by
-  rfl
-
 def exAccepted : Doc := yamlDoc [rule b!"/a/*" b!"http://d0/$1"]
 
 theorem exAccepted_ok : ∃ cs, parseRules exAccepted = .ok cs := by
@@ -558,41 +553,46 @@ theorem exAccepted_ok : ∃ cs, parseRules exAccepted = .ok cs := by
     have : outcome (parseRules exAccepted) = some 1 := by decide
     simp [h, outcome] at this
 
+/-- `RoutingSecrets = []` (set, but empty) and an internal rule: `secrets[0]` in
+    `ensureInternalHeaders` is out of range. This is the one panic site left on the modelled
+    path; it depends on the deployment setting, not on the configuration text, and is the
+    declared assumption of this property (`RoutingSecrets` nil or non-empty). -/
+def exInternal : Doc := yamlDoc [rule b!"/a" b!"d" [kv b!"internal" (.sc (.bool true))]]
+
+theorem fails_witness_secrets :
+    (match parseRules exInternal with
+     | .ok cs => (requestPath (some []) some (cs.map (·.rule)) { host := b!"h", uri := b!"/a", method := b!"GET" }).isOk
+     | .error _ => true) = false := by decide
+
+/-- the full statement quantifies over every `RoutingSecrets` value, the set-but-empty list
+    included: there it stays false (not a listed finding: the declared assumption) -/
 theorem StatementNoPanic_false : ¬ StatementNoPanic := by
   intro h
-  obtain ⟨cs, hcs⟩ := exAccepted_ok
-  have := h exAccepted cs hcs none some { host := b!"[abc", uri := b!"/a/x", method := b!"GET" }
-  rw [fails_witness_host] at this
-  exact Bool.false_ne_true this
+  have hw := fails_witness_secrets
+  cases hp : parseRules exInternal with
+  | error e => simp [hp] at hw
+  | ok cs =>
+    have := h exInternal cs hp (some []) some { host := b!"h", uri := b!"/a", method := b!"GET" }
+    simp only [hp] at hw
+    rw [hw] at this
+    exact Bool.false_ne_true this
 
-theorem contains_lastIndex (c : Nat) (s : Bytes) (h : s.contains c = true) : lastIndex [c] s ≠ none := by
-  induction s with
-  | nil => simp at h
-  | cons d t ih =>
-    unfold lastIndex
-    cases hl : lastIndex [c] t with
-    | some i => simp
-    | none =>
-      have hd : ¬ t.contains c = true := fun ht => ih ht hl
-      have : c = d := by
-        simp only [List.contains_cons, Bool.or_eq_true, beq_iff_eq] at h
-        rcases h with h | h
-        · exact h
-        · exact absurd h hd
-      subst this
-      simp [List.isPrefixOf]
-
-theorem dropPort_isOk (host : Bytes) (hc : inClass_C05_b host = false) : (dropPort host).isOk = true := by
+/-- `DropPort` has no panic site (since the fix for finding C05-b): for EVERY Host value -/
+theorem dropPort_isOk (host : Bytes) : (dropPort host).isOk = true := by
   unfold dropPort
   split
   · rfl
-  · rename_i t
-    have hcont : (91 :: t).contains 93 = true := by simpa [inClass_C05_b] using hc
-    cases hl : lastIndex b!"]" (91 :: t) with
-    | none => exact absurd hl (contains_lastIndex 93 _ hcont)
-    | some cb => rfl
+  · split <;> rfl
   · rfl
   · split <;> rfl
+
+/-- the second caller of `DropPort`, `util.RequestIP` (X-Real-Ip, X-Forwarded-For, RemoteAddr):
+    no header value and no peer address makes it panic -/
+theorem requestIP_isOk (header : Header) (remoteIP : Option Bytes) : (requestIP header remoteIP).isOk = true := by
+  unfold requestIP
+  simp only
+  repeat' split
+  all_goals first | rfl | exact dropPort_isOk _
 
 theorem secretsSite_ok (pass : Bool) (secrets : List Bytes) (a b c : Bytes)
     (h : pass = false ∨ secrets ≠ []) : secretsSite pass secrets a b c = .ok () := by
@@ -627,13 +627,13 @@ theorem ruleSite_ok (routingSecrets : Option (List Bytes)) (rs : List Rule) (req
         exact secretsSite_ok _ _ _ _ _ (Or.inr (fun hs => h (by rw [hs])))
 
 /-- **proved form** (`_partial`): what is missing from `StatementNoPanic` is exactly
-    * the Host values of class C05-b (`[` without `]`): `DropPort` panics on them under every
-      configuration — finding C05-b, shared with property C05;
-    * `RoutingSecrets = []` (set, but empty): `secrets[0]` in `ensureInternalHeaders`.
+    `RoutingSecrets = []` (set, but empty): `secrets[0]` in `ensureInternalHeaders` — the
+    declared assumption of this property. The Host-class hypothesis of finding C05-b (`[`
+    without `]`) is gone with the repair of `util.DropPort`: EVERY Host value is covered.
     The slices of `attemptMatch` never panic under an accepted configuration. -/
 theorem accepted_never_panics_partial (d : Doc) (cs : List RuleChain) (h : parseRules d = .ok cs)
     (routingSecrets : Option (List Bytes)) (reparse : Query → Option Query) (req : Req)
-    (hHost : inClass_C05_b req.host = false) (hSecrets : routingSecrets ≠ some []) :
+    (hSecrets : routingSecrets ≠ some []) :
     (requestPath routingSecrets reparse (cs.map (·.rule)) req).isOk = true := by
   have hs : ∀ r ∈ cs.map (·.rule), wciSound r := by
     intro r hr
@@ -641,7 +641,7 @@ theorem accepted_never_panics_partial (d : Doc) (cs : List RuleChain) (h : parse
     obtain ⟨c, hc, rfl⟩ := hr
     exact wildcard_index_sound d cs h c hc c.rule (by simp)
   unfold requestPath
-  have hd := dropPort_isOk req.host hHost
+  have hd := dropPort_isOk req.host
   cases hdp : dropPort req.host with
   | panic s => simp [hdp, Res.isOk] at hd
   | ok hh =>
@@ -653,9 +653,6 @@ theorem accepted_never_panics_partial (d : Doc) (cs : List RuleChain) (h : parse
       rfl
 
 -- the hypotheses are satisfiable by a request that is actually routed
-example : inClass_C05_b b!"h1.test:8080" = false := by decide
-example : inClass_C05_b b!"[::1]:80" = false := by decide
-example : inClass_C05_b b!"[::1" = true := by decide
 def routed (d : Doc) (req : Req) : Option (Nat × Bytes) :=
   match parseRules d with
   | .ok cs => match requestPath (some [b!"s"]) some (cs.map (·.rule)) req with
@@ -663,7 +660,18 @@ def routed (d : Doc) (req : Req) : Option (Nat × Bytes) :=
     | .panic _ => none
   | .error _ => none
 example : routed exAccepted { host := b!"h1.test:8080", uri := b!"/a/x?y", method := b!"GET" } = some (0, b!"http://d0/x?y") := by decide
--- the second excluded site is real as well
+-- regression for finding C05-b (witnesses of stream kf.C19-host): a Host that opens a bracket
+-- and never closes it is handed on unchanged, nothing panics, whatever the rules are
+example : dropPort b!"[abc" = .ok b!"[abc" := by decide
+example : dropPort b!"[" = .ok b!"[" := by decide
+example : dropPort b!"[::1]:80" = .ok b!"::1" := by decide
+example (routingSecrets : Option (List Bytes)) (rs : List Rule) :
+    (requestPath routingSecrets (fun _ => none) rs { host := b!"[abc", uri := b!"/a/x", method := b!"GET" }).isOk = true := by
+  rfl
+-- (with the identity for the URL re-parse such a request is routed like any other; the real
+-- `url.Parse` rejects the Host and `Rules.Match` hands the error back: the `reparse = none` case)
+example : routed exAccepted { host := b!"[abc", uri := b!"/a/x", method := b!"GET" } = some (0, b!"http://d0/x") := by decide
+-- the excluded site is real
 example : (requestPath (some []) some [{ path := b!"/a", dest := b!"d", internal := true }]
     { host := b!"h", uri := b!"/a", method := b!"GET" }).isOk = false := by decide
 
@@ -733,10 +741,10 @@ example : wellTyped (.map [(.int 1, str b!"x")]) = false := by decide
 
 theorem reload_protocol_pinned : reloadProtocol = Spec.reloadSteps := by rfl
 
+/-- what is observed after the attempt: the reloader cannot die any more (`step` is total),
+    so there always is an observation (`none` is the oracle's "the process died") -/
 def modelAfter (probes : List Query) (ids : List Bytes) (s : State) (f : Fetch) : Option Obs :=
-  match step s f with
-  | .ok r => some (observe probes ids r.1)
-  | .panic _ => none
+  some (observe probes ids (step s f).1)
 
 def modelRestart (probes : List Query) (ids : List Bytes) : Fetch → Option Obs
   | .error => none
@@ -766,11 +774,12 @@ def wOld : State :=
   { rules := [⟨{ path := b!"/a/*", wci := some 3, dest := b!"http://old/$1", cacheId := b!"a" }, []⟩],
     storages := [⟨b!"a", b!"/S/a", 1048576⟩], checksum := 1 }
 
-/-- C19-a: new rules, and a cache section the decoder rejects (`size: 300`, a YAML integer) -/
+/-- witness of (repaired) finding C19-a: new rules, and a cache section the decoder rejects
+    (`size: 300`, a YAML integer) -/
 def wFetchA : Fetch := .doc 2 (yamlDoc [rule b!"/a/*" b!"http://new/$1"]
   [kv b!"caches" (.list [.map [kv b!"id" (str b!"b"), kv b!"path" (str b!"/S/b"), kv b!"size" (.sc (.int 300))]])])
 
-/-- C19-b: new rules, and the same cache id twice -/
+/-- witness of (repaired) finding C19-b: new rules, and the same cache id twice -/
 def wFetchB : Fetch := .doc 3 (yamlDoc [rule b!"/a/*" b!"http://new/$1"]
   [kv b!"caches" (.list [cacheEntry b!"a" b!"/S/a" b!"1M", cacheEntry b!"a" b!"/S/a2" b!"1M"])])
 
@@ -782,31 +791,26 @@ theorem wFetchA_kind : kindOf wOld.checksum wFetchA = .invalidStorages := by dec
 theorem wFetchB_kind : kindOf wOld.checksum wFetchB = .invalidStorages := by decide
 theorem wFetchD_kind : kindOf wOld.checksum wFetchD = .valid := by decide
 
-/-- **C19-a.** `ParseStorageConfigs` does return an *error* (not only the panic) for a document
-    `ParseRules` accepts — here a cache `size` written as a YAML integer — and by then
-    `SetRules` has already run: the new rules serve next to the old caches. -/
-theorem fails_witness_a :
+/-! regression for findings C19-a and C19-b (the witnesses of streams kf.C19-a, kf.C19-b): both
+    attempts are failed reloads that leave everything as it was -/
+
+-- C19-a: the cache section is rejected BEFORE `SetRules` runs: old rules, old caches
+example :
     holdsStep (kindOf wOld.checksum wFetchA) (observe wProbes wIds wOld) (modelAfter wProbes wIds wOld wFetchA)
-      (modelRestart wProbes wIds wFetchA) = false := by decide
-
-/-- what exactly is observed: the probe goes to `new`, the caches are the old ones -/
-theorem fails_witness_a_detail :
+      (modelRestart wProbes wIds wFetchA) = true := by decide
+example :
     (observe wProbes wIds wOld, modelAfter wProbes wIds wOld wFetchA) =
-    (⟨[some (b!"http://old/$1", b!"a")], [true, false]⟩, some ⟨[some (b!"http://new/$1", b!"")], [true, false]⟩) := by
+    (⟨[some (b!"http://old/$1", b!"a")], [true, false]⟩, some ⟨[some (b!"http://old/$1", b!"a")], [true, false]⟩) := by
   decide
-
-/-- **C19-b.** A duplicate cache id panics inside the reloader: no state is left (`none`). -/
-theorem fails_witness_b : modelAfter wProbes wIds wOld wFetchB = none := by decide
-
-theorem fails_witness_b_holds :
+example : (step wOld wFetchA).2 = .storagesRejected := by decide
+-- C19-b: a duplicate cache id is an error like any other: the reloader lives, nothing changes
+example : modelAfter wProbes wIds wOld wFetchB = some (observe wProbes wIds wOld) := by decide
+example :
     holdsStep (kindOf wOld.checksum wFetchB) (observe wProbes wIds wOld) (modelAfter wProbes wIds wOld wFetchB)
-      (modelRestart wProbes wIds wFetchB) = false := by decide
-
-theorem StatementFailure_false : ¬ StatementFailure := by
-  intro h
-  have := h wProbes wIds wOld wFetchA (by rw [wFetchA_kind]; decide)
-  rw [fails_witness_a] at this
-  exact Bool.false_ne_true this
+      (modelRestart wProbes wIds wFetchB) = true := by decide
+example : (step wOld wFetchB).2 = .storagesRejected := by decide
+-- and a start-up with such a text refuses to start (with an error, no longer by panicking)
+example : modelRestart wProbes wIds wFetchB = none := by decide
 
 /-- **C19-d.** Valid new configuration listing caches `a` (in use) and `b` (new): afterwards
     only `b` exists — `SetStorageConfigs` replaces the list by the new storages alone. -/
@@ -827,11 +831,11 @@ theorem StatementSuccess_false : ¬ StatementSuccess := by
 
 /-! proved forms -/
 
-/-- the state itself is untouched (not merely the observation) when the attempt fails outside
-    the two classes -/
-theorem step_keeps_state (s : State) (f : Fetch)
-    (ha : inClass_C19_a f = false) (hb : inClass_C19_b f = false) (hk : kindOf s.checksum f ≠ .valid) :
-    ∃ e, step s f = .ok (s, e) := by
+/-- the state itself is untouched (not merely the observation) whenever the attempt is not a
+    valid new configuration: fetch failure, unchanged text, rules rejected, cache section
+    rejected (type error or duplicate id/path) -/
+theorem step_keeps_state (s : State) (f : Fetch) (hk : kindOf s.checksum f ≠ .valid) :
+    ∃ e, step s f = (s, e) := by
   cases f with
   | error => exact ⟨_, rfl⟩
   | doc sum d =>
@@ -843,59 +847,42 @@ theorem step_keeps_state (s : State) (f : Fetch)
       | error e => exact ⟨_, rfl⟩
       | ok rules =>
         cases hs : parseStorageConfigs d with
-        | panic site => simp [inClass_C19_b, hp, hs] at hb
-        | ok o =>
-          cases o with
-          | none => simp [inClass_C19_a, hp, hs] at ha
-          | some cfgs =>
-            have : ¬ sum = s.checksum := fun h => hc h.symm
-            simp [kindOf, this, hp, hs] at hk
+        | none => exact ⟨_, rfl⟩
+        | some cfgs =>
+          have : ¬ sum = s.checksum := fun h => hc h.symm
+          simp [kindOf, this, hp, hs] at hk
 
 theorem holds_of_kept (probes : List Query) (ids : List Bytes) (s : State) (f : Fetch) (e : StepEnd)
-    (he : step s f = .ok (s, e)) (hk : kindOf s.checksum f ≠ .valid) :
+    (he : step s f = (s, e)) (hk : kindOf s.checksum f ≠ .valid) :
     holdsStep (kindOf s.checksum f) (observe probes ids s) (modelAfter probes ids s f) (modelRestart probes ids f) = true := by
   have : modelAfter probes ids s f = some (observe probes ids s) := by simp [modelAfter, he]
   rw [this]
   cases hkind : kindOf s.checksum f <;> simp_all [holdsStep]
 
-/-- **proved form** (`_partial`) of `StatementFailure`: a failure to fetch, an unchanged text,
-    and a failure to parse or validate the *rules* leave everything as it was. What is missing
-    is the cache section: C19-a (rejected with an error after `SetRules` has run) and C19-b
-    (duplicate id/path: panic in the reloader goroutine, the process dies). -/
-theorem reload_failure_keeps_state_partial (probes : List Query) (ids : List Bytes) (s : State) (f : Fetch)
-    (ha : inClass_C19_a f = false) (hb : inClass_C19_b f = false) (hk : kindOf s.checksum f ≠ .valid) :
-    holdsStep (kindOf s.checksum f) (observe probes ids s) (modelAfter probes ids s f) (modelRestart probes ids f) = true := by
-  obtain ⟨e, he⟩ := step_keeps_state s f ha hb hk
+/-- **C19, "a reload that fails to fetch, parse or validate leaves the previous rules and
+    caches serving"** — at full strength, no class hypothesis: both sections of the new text are
+    parsed and validated before `SetRules` / `SetStorageConfigs` run, and a duplicate cache id or
+    path is an error, not a panic (findings C19-a and C19-b repaired). -/
+theorem reload_failure_keeps_state : StatementFailure := by
+  intro probes ids s f hk
+  obtain ⟨e, he⟩ := step_keeps_state s f hk
   exact holds_of_kept probes ids s f e he hk
 
-/-- fetch failures, unchanged texts and rule failures need no class hypothesis at all -/
+/-- the same for the three kinds that never needed a class hypothesis (kept under its name) -/
 theorem reload_fetch_and_rule_failures_keep_state (probes : List Query) (ids : List Bytes) (s : State) (f : Fetch)
     (hk : kindOf s.checksum f = .fetchFailed ∨ kindOf s.checksum f = .same ∨ kindOf s.checksum f = .invalidRules) :
     holdsStep (kindOf s.checksum f) (observe probes ids s) (modelAfter probes ids s f) (modelRestart probes ids f) = true := by
-  have hv : kindOf s.checksum f ≠ .valid := by
-    rcases hk with h | h | h <;> rw [h] <;> decide
-  have : ∃ e, step s f = .ok (s, e) := by
-    cases f with
-    | error => exact ⟨_, rfl⟩
-    | doc sum d =>
-      unfold step
-      by_cases hc : s.checksum = sum
-      · exact ⟨.unchanged, by simp [hc]⟩
-      · simp only [hc, ↓reduceIte]
-        have hc' : ¬ sum = s.checksum := fun h => hc h.symm
-        cases hp : parseRules d with
-        | error e => exact ⟨_, rfl⟩
-        | ok rules =>
-          cases hs : parseStorageConfigs d with
-          | panic site => simp [kindOf, hc', hp, hs] at hk
-          | ok o => cases o <;> simp [kindOf, hc', hp, hs] at hk
-  obtain ⟨e, he⟩ := this
-  exact holds_of_kept probes ids s f e he hv
+  apply reload_failure_keeps_state
+  rcases hk with h | h | h <;> rw [h] <;> decide
+
+/-- and the reloader survives every attempt: there always is an observation afterwards -/
+theorem reload_never_dies (probes : List Query) (ids : List Bytes) (s : State) (f : Fetch) :
+    (modelAfter probes ids s f).isSome = true := rfl
 
 /-- what `kindOf … = valid` says about the pieces -/
 theorem valid_inv (s : State) (f : Fetch) (hk : kindOf s.checksum f = .valid) :
     ∃ sum d rules cfgs, f = .doc sum d ∧ s.checksum ≠ sum ∧ parseRules d = .ok rules ∧
-      parseStorageConfigs d = .ok (some cfgs) := by
+      parseStorageConfigs d = some cfgs := by
   cases f with
   | error => simp [kindOf] at hk
   | doc sum d =>
@@ -907,19 +894,16 @@ theorem valid_inv (s : State) (f : Fetch) (hk : kindOf s.checksum f = .valid) :
       | error e => simp [hp] at hk
       | ok rules =>
         cases hs : parseStorageConfigs d with
-        | panic site => simp [hp, hs] at hk
-        | ok o =>
-          cases o with
-          | none => simp [hp, hs] at hk
-          | some cfgs => exact ⟨sum, d, rules, cfgs, rfl, fun h => hc h.symm, by simp [hp], by simp [hs]⟩
+        | none => simp [hp, hs] at hk
+        | some cfgs => exact ⟨sum, d, rules, cfgs, rfl, fun h => hc h.symm, by simp [hp], by simp [hs]⟩
 
 /-- **C19, "a successful reload behaves like a restart" — rules** (full): after a valid new
     text the reloader serves exactly the rule list a fresh start with that text builds, and
     remembers its checksum. -/
 theorem reload_success_like_restart (s : State) (f : Fetch) (hk : kindOf s.checksum f = .valid) :
-    ∃ sum d s' r cfgs, f = .doc sum d ∧ step s f = .ok (s', .loaded) ∧ start sum d = some r ∧
+    ∃ sum d s' r cfgs, f = .doc sum d ∧ step s f = (s', .loaded) ∧ start sum d = some r ∧
       s'.rules = r.rules ∧ s'.checksum = r.checksum ∧
-      parseStorageConfigs d = .ok (some cfgs) ∧
+      parseStorageConfigs d = some cfgs ∧
       s'.storages = setStorageConfigs s.storages cfgs ∧ r.storages = cfgs.map Storage.ofCfg := by
   obtain ⟨sum, d, rules, cfgs, rfl, hc, hp, hs⟩ := valid_inv s f hk
   refine ⟨sum, d, ⟨rules, setStorageConfigs s.storages cfgs, sum⟩, ⟨rules, cfgs.map Storage.ofCfg, sum⟩, cfgs,
@@ -1060,13 +1044,13 @@ def wFetchUpd : Fetch := .doc 6 (yamlDoc [rule b!"/a/*" b!"http://new/$1" [kv b!
 example : (kindOf wOld.checksum wFetchNew, inClass_C19_d wOld wFetchNew) = (.valid, false) := by decide
 example : (kindOf wOld.checksum wFetchUpd, inClass_C19_d wOld wFetchUpd) = (.valid, false) := by decide
 example : modelAfter wProbes wIds wOld wFetchUpd = some ⟨[some (b!"http://new/$1", b!"a")], [true, false]⟩ := by decide
-example : (match step wOld wFetchUpd with | .ok r => r.1.storages | .panic _ => []) = [⟨b!"a", b!"/S/a", 2097152⟩] := by decide
+example : (step wOld wFetchUpd).1.storages = [⟨b!"a", b!"/S/a", 2097152⟩] := by decide
 -- and the failure kinds of the partial theorems
 example : kindOf wOld.checksum .error = .fetchFailed := by decide
 example : kindOf wOld.checksum (.doc 1 (yamlDoc [])) = .same := by decide
 example : kindOf wOld.checksum (.doc 7 { yaml := none, json := none }) = .invalidRules := by decide
 example : kindOf wOld.checksum (.doc 8 (yamlDoc [rule b!"/a/*/b" b!"d"])) = .invalidRules := by decide
-example : (inClass_C19_a wFetchA, inClass_C19_b wFetchA, inClass_C19_a wFetchB, inClass_C19_b wFetchB) = (true, false, false, true) := by decide
+example : (kindOf wOld.checksum wFetchA, kindOf wOld.checksum wFetchB) = (.invalidStorages, .invalidStorages) := by decide
 example : inClass_C19_d wOld wFetchD = true := by decide
 
 end Props.C19
